@@ -204,6 +204,7 @@ class DetIOLoop(asyncio.SelectorEventLoop):
     def __init__(self):
         super().__init__()
         self._det_counter = 0
+        self._pid = __import__("os").getpid()
         self.set_task_factory(self._det_task_factory)
         self.set_default_executor(_InlineExecutor(max_workers=1))
 
@@ -228,9 +229,15 @@ class DetIOLoop(asyncio.SelectorEventLoop):
 def install_deterministic_zarr_loop():
     import zarr.core.sync as zs
 
+    import os
+
     cur = zs.loop[0]
-    if isinstance(cur, DetIOLoop):
+    if isinstance(cur, DetIOLoop) and cur._pid == os.getpid() and zs.iothread[0] is not None and zs.iothread[0].is_alive():
         return cur
+    # (also after a fork: Zarr resets its loop in the child and would lazily create a plain one -
+    # with a real thread pool behind asyncio.to_thread - on first use)
+    if isinstance(cur, DetIOLoop) and cur._pid != os.getpid():
+        cur = None  # the parent's loop object: its thread does not exist here
     with zs._get_lock():
         if cur is not None:
             try:
